@@ -110,8 +110,8 @@ Print Assumptions Conc_from_new.
 
 (* the exclusion of change_tree(.., Online) from `sched_valid` is necessary: a concrete M2 schedule (one tree, thread 0
    frees frame 0, thread 1 onlines the tree between the lower free and the counter increment) ends quiescent with the
-   tree counter at 2 and one frame free (UpperOnlineRace.v; outside the quantifiers of C03/C04/C15, documented as an
-   observation in DESIGN.md) *)
+   tree counter at 2 and one frame free (UpperOnlineRace.v).  C04's space contains concurrent tree changes: the compiled
+   code shows the same end state (scenario group `online-race`), known finding D16 of DESIGN.md 11.2 *)
 From LLF Require Import UpperOnlineRace.
 Theorem Conc_online_exclusion_necessary :
   upper_invb g7 simple7 (ustate_new u0) = true /\
@@ -121,3 +121,38 @@ Theorem Conc_online_exclusion_necessary :
   ~ UpperInv g7 simple7 (ustate_new (m2_up s_end)).
 Proof. exact conc_online_put_double_count. Qed.
 Print Assumptions Conc_online_exclusion_necessary.
+
+(* C01 through the upper API with ANY tree change in the schedule, change_tree(.., Online) included (UpperConcWeak.v).
+   The accounting invariant cannot survive an Online racing a put (above); the safety of the blocks handed out does:
+   the upper layer is only a client of the lower allocator, it calls Lower::get / get_at with rows / frames in range
+   and frees only blocks its caller holds, so M1's invariant is preserved whatever the tree / slot counters say.
+   NO hypothesis on the policy.  `sched_valid_w`: a slot index is below the class's slot count (or none) and a put
+   passes the argument check; a change_tree call is unrestricted (any matcher, any class, Online / Offline / none).
+   What is given up: the upper layer may panic on its (now possibly wrong) counters; a panicked thread just stops. *)
+From LLF Require Import UpperConcWeak.
+Theorem Conc_held_with_any_tree_change : forall g policy u held0 n sch,
+  wf_geom g ->
+  UpperInv g policy (ustate_new u) ->
+  HeldInit g (low u) held0 ->
+  sched_valid_w g u sch ->
+  uheld_ok (urun g policy sch (uboot u held0 n)) = true.
+Proof. exact conc_upper_held_weak. Qed.
+Print Assumptions Conc_held_with_any_tree_change.
+
+(* ... and M1's invariant holds for the M1 view of every reachable M2 state (so every reachable state is a crash point:
+   UpperConcWeak.conc_upper_crash_safe_weak), where the view `m1w s L` is `m1_of s` with a ghost list L of LEAKED blocks
+   appended to the held list: frames a get had already obtained from the lower allocator when it panicked in upper
+   code (e.g. "Unreserve failed" on a counter broken by an Online race); they stay allocated and belong to nobody *)
+Theorem Conc_m1_inv_with_any_tree_change : forall g policy u held0 n sch,
+  wf_geom g ->
+  UpperInv g policy (ustate_new u) ->
+  HeldInit g (low u) held0 ->
+  sched_valid_w g u sch ->
+  exists L, Inv g (m1w g (urun g policy sch (uboot u held0 n)) L).
+Proof. exact conc_upper_m1_inv_weak. Qed.
+Print Assumptions Conc_m1_inv_with_any_tree_change.
+
+(* non-vacuity: the Online-vs-put race above satisfies the hypotheses *)
+Theorem Conc_held_online_race_instance : uheld_ok s_end = true /\ exists L, Inv g7 (m1w g7 s_end L).
+Proof. exact WeakExample.conc_weak_instance. Qed.
+Print Assumptions Conc_held_online_race_instance.
